@@ -25,9 +25,10 @@ theorem write_core {s s' : State} (hi : Inv s) {b k c : Bytes} {t ds : Tree} {p 
 
 /-- `copy_object` may be compared with the store (a copy of an object onto itself included): names agree and side-file
     names fit; for admissible names the source is not a leftover directory (a missing source bucket is inside since
-    cc244fc: `NoSuchBucket` on both sides; before: fs:missing-bucket-reported-as-missing-key); when the copy can happen the destination path is free, the destination has no metadata
-    file the source lacks [fs:stale-metadata-after-copy] and both have the same recorded checksums
-    [fs:stale-checksum-after-copy] -/
+    cc244fc: `NoSuchBucket` on both sides; before: fs:missing-bucket-reported-as-missing-key); when the copy can happen the
+    destination path is free. Nothing is demanded of the side files: the destination takes over the source's metadata and
+    recorded checksums, or loses its own when the source has none (aa68bb7; before: fs:stale-metadata-after-copy,
+    fs:stale-checksum-after-copy) -/
 def CopyOk (s : State) (sb sk db dk : Bytes) : Prop :=
   NameOk sb ∧ CanonKey sk ∧ NameOk db ∧ CanonKey dk ∧
   sideTooLong sb sk false = false ∧ sideTooLong db dk false = false ∧
@@ -44,9 +45,7 @@ def CopyOk (s : State) (sb sk db dk : Bytes) : Prop :=
           match s.tree db with
           | none => True
           | some dt =>
-            WriteOk dt dp ∧
-            (alLookup (sb, sk) s.metas ≠ none ∨ alLookup (db, dk) s.metas = none) ∧
-            (alLookup (db, dk) s.infos).getD {} = (alLookup (sb, sk) s.infos).getD {}
+            WriteOk dt dp
     | _, _ => True)
 
 /-- `create_dir_all` below an existing bucket, when no prefix is a file: directories are appended -/
@@ -97,6 +96,70 @@ theorem dirs_core {s s' : State} (hi : Inv s) {b : Bytes} {t ds : Tree} {q : Pat
         · exact hi.paths _ hmem _ hx
         · exact hqok _ (hds x hx).2
       · exact hi.paths e he x hx
+    · rw [hu, hiss]; exact hi.upIds
+    · rw [hpa, hiss]; exact hi.partIds
+    · rw [hum, hiss]; exact hi.upMetaIds
+
+/-- abstraction and invariant after the successful path of `copy_object` between two different objects: the destination
+    file is written, its metadata and internal-info side files become the source's (removed when the source has none) -/
+theorem copy_core {s s' : State} (hi : Inv s) {sb sk b k c : Bytes} {t ds : Tree} {p : Path}
+    (ht : s.tree b = some t) (hp : PathOk p) (hcanon : joinWith [slash] p = k) (hw : t.node p ≠ some Node.dir)
+    (hds : ∀ e ∈ ds, e.2 = Node.dir ∧ e.1 ∈ prefixes p.dropLast) (hnd : keysNodup (t ++ ds))
+    (hb' : s'.buckets = alInsert b (alInsert p (.file c) (t ++ ds)) s.buckets)
+    (hmetas : s'.metas = (alLookup (sb, sk) s.metas).elim (alErase (b, k) s.metas) (fun m => alInsert (b, k) m s.metas))
+    (hinfos : s'.infos = (alLookup (sb, sk) s.infos).elim (alErase (b, k) s.infos) (fun x => alInsert (b, k) x s.infos))
+    (hu : s'.uploads = s.uploads) (hpa : s'.parts = s.parts) (hum : s'.upMetas = s.upMetas)
+    (hiss : s'.issued = s.issued) :
+    abs s' = (abs s).setObj b k ⟨c, absMeta s sb sk, (alLookup (sb, sk) s.infos).getD {}⟩ ∧ Inv s' := by
+  have habs : (abs s).bucket b = some (absTree s b t) := by rw [abs_bucket, ht]; rfl
+  have hm : ∀ x, x ≠ (b, k) → alLookup x s'.metas = alLookup x s.metas := by
+    intro x hx
+    rw [hmetas]
+    cases alLookup (sb, sk) s.metas with
+    | none => exact alLookup_alErase_ne hx _
+    | some m => exact alLookup_alInsert_ne hx _ _
+  have hin : ∀ x, x ≠ (b, k) → alLookup x s'.infos = alLookup x s.infos := by
+    intro x hx
+    rw [hinfos]
+    cases alLookup (sb, sk) s.infos with
+    | none => exact alLookup_alErase_ne hx _
+    | some m => exact alLookup_alInsert_ne hx _ _
+  constructor
+  · apply Store.ext'
+    · rw [abs_write hi ht hp hcanon hw hds hnd hb' hm hin]
+      unfold Store.setObj
+      simp only [habs, Option.getD_some]
+      congr 2
+      have h1 : absMeta s' b k = absMeta s sb sk := by
+        unfold absMeta
+        rw [hmetas]
+        cases alLookup (sb, sk) s.metas with
+        | none => simp [alLookup_alErase_self]
+        | some m => simp [alLookup_alInsert_self]
+      have h2 : (alLookup (b, k) s'.infos).getD {} = (alLookup (sb, sk) s.infos).getD {} := by
+        rw [hinfos]
+        cases alLookup (sb, sk) s.infos with
+        | none => simp [alLookup_alErase_self]
+        | some x => simp [alLookup_alInsert_self]
+      rw [h1, h2]
+    · unfold Store.setObj
+      exact abs_uploads_congr hu hum hpa
+    · unfold Store.setObj
+      show s'.issued = s.issued
+      exact hiss
+  · obtain ⟨i1, i2, i3⟩ := inv_write_buckets hi ht hp hds hnd hb'
+    refine ⟨i1, i2, i3, ?_, ?_, ?_, ?_, ?_, ?_⟩
+    · intro e he
+      rw [hmetas] at he
+      cases hsm : alLookup (sb, sk) s.metas with
+      | none => rw [hsm] at he; exact hi.metaOk e (alErase_mem he)
+      | some m =>
+        rw [hsm] at he
+        rcases alInsert_mem he with he | he
+        · subst he; exact hi.metaOk ((sb, sk), m) (alLookup_mem hsm)
+        · exact hi.metaOk e he
+    · rw [hu]; exact hi.und
+    · rw [hpa]; exact hi.pnd
     · rw [hu, hiss]; exact hi.upIds
     · rw [hpa, hiss]; exact hi.partIds
     · rw [hum, hiss]; exact hi.upMetaIds
@@ -165,7 +228,7 @@ theorem copy_refines (H : Hashes) (dl : Nat) {s : State} (hi : Inv s) {sb sk db 
                 | some dt =>
                   rw [hdt] at hmain
                   simp only at hmain
-                  obtain ⟨hw, hmeta, hcks⟩ := hmain
+                  have hw := hmain
                   by_cases hne : (sb, sk) = (db, dk)
                   · -- the object onto itself: nothing is copied, nothing changes
                     simp only [Prod.mk.injEq] at hne
@@ -196,8 +259,7 @@ theorem copy_refines (H : Hashes) (dl : Nat) {s : State} (hi : Inv s) {sb sk db 
                     rw [alInsert_same hslook]
                     have hb : alLookup sb (abs s).buckets = some (absTree s sb st) := hsabs
                     rw [alInsert_same hb]
-                  · skip
-                    have hh : alHas db (abs s).buckets = true := by
+                  · have hh : alHas db (abs s).buckets = true := by
                       rw [abs_alHas]; unfold State.tree at hdt; simp [alHas, hdt]
                     have hdmem := tree_mem hdt
                     -- source and destination are different files
@@ -211,55 +273,21 @@ theorem copy_refines (H : Hashes) (dl : Nat) {s : State} (hi : Inv s) {sb sk db 
                         ((abs s).setObj db dk ⟨c, absMeta s sb sk, (alLookup (sb, sk) s.infos).getD {}⟩,
                           .copied (some (etagOf H c))) := by
                       simp [StoreSpec.step, hsbo, hsko, hdbo, hdko, hsabs, hslook, hh]
-                    cases hsm : alLookup (sb, sk) s.metas with
-                    | none =>
-                      have hdm : alLookup (db, dk) s.metas = none := by
-                        rcases hmeta with h | h
-                        · exact absurd hsm h
-                        · exact h
-                      have hstep : step H dl s (.copyObject sb sk db dk) =
-                          ({ s with buckets := alInsert db (alInsert dp (.file c) (dt ++ ds)) s.buckets },
-                            .copied (some (etagOf H c))) := by
-                        simp [step, objPath, hsbd, hskp, hdbd, hdkp, hsnode, hsn, hdt, hpne, hcommit, hsshort, hsm]
-                      rw [hstep, hspec]
-                      obtain ⟨h1, i1, i2, i3⟩ := write_core (s' := { s with buckets := alInsert db (alInsert dp (.file c) (dt ++ ds)) s.buckets }) hi hdt hdp hdcanon hw.2 hds hnd rfl
-                        (fun _ _ => rfl) (fun _ _ => rfl) hi.metaOk
-                      refine ⟨rfl, ?_, ⟨i1, i2, i3, hi.metaOk, hi.und, hi.pnd, hi.upIds, hi.partIds, hi.upMetaIds⟩⟩
-                      apply Store.ext'
-                      · rw [h1]
-                        have e1 : absMeta { s with buckets := alInsert db (alInsert dp (.file c) (dt ++ ds)) s.buckets } db dk = absMeta s sb sk := by
-                          simp [absMeta, hsm, hdm]
-                        rw [e1]
-                        show ((abs s).setObj db dk ⟨c, absMeta s sb sk, (alLookup (db, dk) s.infos).getD {}⟩).buckets = _
-                        rw [hcks]
-                      · exact abs_uploads_congr rfl rfl rfl
-                      · rfl
-                    | some m =>
-                      have hmgood : m ≠ MetaFile.corrupt := hi.metaOk _ (alLookup_mem hsm)
-                      have hstep : step H dl s (.copyObject sb sk db dk) =
-                          ({ s with buckets := alInsert db (alInsert dp (.file c) (dt ++ ds)) s.buckets,
-                                    metas := alInsert (db, dk) m s.metas },
-                            .copied (some (etagOf H c))) := by
-                        simp [step, objPath, hsbd, hskp, hdbd, hdkp, hsnode, hsn, hdt, hpne, hcommit, hsshort, hsm,
-                          hdshort]
-                      rw [hstep, hspec]
-                      have hmok : ∀ e ∈ alInsert (db, dk) m s.metas, e.2 ≠ MetaFile.corrupt := by
-                        intro e he
-                        rcases alInsert_mem he with he | he
-                        · subst he; exact hmgood
-                        · exact hi.metaOk e he
-                      obtain ⟨h1, i1, i2, i3⟩ := write_core (s' := { s with buckets := alInsert db (alInsert dp (.file c) (dt ++ ds)) s.buckets, metas := alInsert (db, dk) m s.metas }) hi hdt hdp hdcanon hw.2 hds hnd rfl
-                        (fun x hx => alLookup_alInsert_ne hx _ _) (fun _ _ => rfl) hmok
-                      refine ⟨rfl, ?_, ⟨i1, i2, i3, hmok, hi.und, hi.pnd, hi.upIds, hi.partIds, hi.upMetaIds⟩⟩
-                      apply Store.ext'
-                      · rw [h1]
-                        have e1 : absMeta { s with buckets := alInsert db (alInsert dp (.file c) (dt ++ ds)) s.buckets, metas := alInsert (db, dk) m s.metas } db dk = absMeta s sb sk := by
-                          simp [absMeta, hsm, alLookup_alInsert_self]
-                        rw [e1]
-                        show ((abs s).setObj db dk ⟨c, absMeta s sb sk, (alLookup (db, dk) s.infos).getD {}⟩).buckets = _
-                        rw [hcks]
-                      · exact abs_uploads_congr rfl rfl rfl
-                      · rfl
+                    -- the side files of the destination become the source's, or disappear with them
+                    have hstep : step H dl s (.copyObject sb sk db dk) =
+                        ({ buckets := alInsert db (alInsert dp (.file c) (dt ++ ds)) s.buckets,
+                           metas := (alLookup (sb, sk) s.metas).elim (alErase (db, dk) s.metas)
+                             (fun m => alInsert (db, dk) m s.metas),
+                           upMetas := s.upMetas,
+                           infos := (alLookup (sb, sk) s.infos).elim (alErase (db, dk) s.infos)
+                             (fun x => alInsert (db, dk) x s.infos),
+                           uploads := s.uploads, parts := s.parts, issued := s.issued },
+                          .copied (some (etagOf H c))) := by
+                      cases hsm : alLookup (sb, sk) s.metas <;> cases hsi : alLookup (sb, sk) s.infos <;>
+                        simp [step, objPath, hsbd, hskp, hdbd, hdkp, hsnode, hsn, hdt, hpne, hcommit, hsshort, hdshort,
+                          hsm, hsi]
+                    rw [hstep, hspec]
+                    exact ⟨rfl, copy_core hi hdt hdp hdcanon hw.2 hds hnd rfl rfl rfl rfl rfl rfl rfl⟩
       · simp [step, StoreSpec.step, objPath, hsbd, hskp, hsbo, hsko, hdbd, hdbo, hi]
   · simp [step, StoreSpec.step, objPath, hsbd, hsbo, hi]
 
